@@ -45,6 +45,7 @@ def draw_knobs(rng: Rng, profile: dict):
         log_mode=kr.pick([None, None, "full", "merged", "none"]) if backend == "slurm" else None,
         skew=kr.chance(profile.get("p_skew", 0.0)),
         hash_seed=kr.randrange(1 << 30),
+        verbose_flag=kr.pick([None, None, None, "debug", "info"]),
     )
     if not kn["accounting"]:
         kn["acct_lag"] = False
@@ -176,6 +177,12 @@ class WorldScenario:
             if w.local.pool.loop.next_timer() is not None or w.local.doomed():
                 add("finish", {"op": "pool_settle"}, 0.5)
             add("pool_restart", {"op": "pool_restart"})
+            from .pool_scenario import GARBAGE
+
+            cid = r.pick(["x1", "x2"])
+            add("bad_client", {"op": "bad_client", "conn": cid, "what": "garbage", "i": r.randrange(len(GARBAGE))})
+            add("bad_client", {"op": "bad_client", "conn": cid, "what": r.pick(["abort", "eof", "enqueue_abort",
+                                                                               "cancel_unknown", "reconnect"])}, 0.6)
         files_out = [o for t in w.model.targets.values() for o in t.outputs]
         if w.model.sources:
             add("modify_source", {"op": "modify_source", "f": r.pick(w.model.sources)})
@@ -219,6 +226,9 @@ class WorldScenario:
                 j.id, j.name = op["id"], jb["name"]
                 w.run_job_effects(j, op["how"], 0.0, False)
                 w.local.finish(op["id"], op["how"])
+        elif kind == "bad_client":
+            if w.local is not None:
+                self._bad_client(w, op)
         elif kind == "pool_settle":
             if w.local is not None:
                 w.local.settle_timers()
@@ -304,6 +314,41 @@ class WorldScenario:
 
     def apply_extra(self, w, op):
         raise HarnessError(f"unknown op {op['op']}")
+
+    def _bad_client(self, w, op):
+        """Another connection to the same pool misbehaves while gwf is the healthy client."""
+        from .pool import L
+        from .pool_scenario import GARBAGE
+
+        pool = w.local.pool
+        c = pool.conns.get(op["conn"])
+        what = op["what"]
+        if what == "reconnect" or c is None or not c.usable:
+            c = pool.connect(op["conn"], True)
+            if what == "reconnect":
+                return
+        c.tainted = True
+        if what == "garbage":
+            data = GARBAGE[op["i"]]
+            c.send(data)
+            if not data.endswith(b"\n"):
+                c.send_eof()
+            w.fault("garbage_request")
+        elif what == "abort":
+            c.abort()
+            w.fault("client_abort")
+        elif what == "eof":
+            c.send_eof()
+            w.fault("client_eof")
+        elif what == "enqueue_abort":
+            c.send(L.encode("enqueue_task", name="foreign_task", script="foreign-script", working_dir=w.proj,
+                            time_limit=None, deps=[]).encode())
+            c.abort()
+            w.fault("disconnect_before_reply")
+        elif what == "cancel_unknown":
+            c.send(L.encode("cancel_task", tid=424242).encode())
+            w.fault("cancel_unknown_id")
+        w.local.pump()
 
     def _on_job_start(self, w, j):
         pass
